@@ -563,7 +563,13 @@ class TypeReader:
                 al = []
                 self.skip_ws()
                 while (not self.at(">")):
-                    al.append(self.variant("GenericArgument", "Type", [self.ty()]))
+                    if self.at("'"):
+                        self.i += 1
+                        while self.peek() is not None and isinstance(self.peek(), int) and (chr(self.peek()).isalnum() or self.peek() == 95):
+                            self.i += 1
+                        al.append(self.variant("GenericArgument", "Lifetime", [Opaque("Lifetime")]))
+                    else:
+                        al.append(self.variant("GenericArgument", "Type", [self.ty()]))
                     self.skip_ws()
                     if self.at(","):
                         self.i += 1
